@@ -10,6 +10,8 @@ import (
 	"io/ioutil"
 	"os"
 	"path/filepath"
+
+	"github.com/cnotch/ipchub/utils/verifhook"
 )
 
 // EncodeJSONFile 编码 JSON 文件
@@ -35,11 +37,13 @@ func EncodeJSONFile(path string, obj interface{}) (err error) {
 		mode = fi.Mode().Perm()
 	}
 
+	verifhook.Crash("jsonfile:begin")
 	f, err := ioutil.TempFile(filepath.Dir(path), filepath.Base(path)+".tmp")
 	if err != nil {
 		return err
 	}
 	tmp := f.Name()
+	verifhook.Crash("jsonfile:after-create")
 	defer func() {
 		if err != nil {
 			f.Close()
@@ -50,14 +54,21 @@ func EncodeJSONFile(path string, obj interface{}) (err error) {
 	if _, err = f.Write(formatted.Bytes()); err != nil {
 		return err
 	}
+	verifhook.Crash("jsonfile:after-write")
 	if err = f.Chmod(mode); err != nil {
 		return err
 	}
 	if err = f.Sync(); err != nil {
 		return err
 	}
+	verifhook.Crash("jsonfile:after-sync")
 	if err = f.Close(); err != nil {
 		return err
 	}
-	return os.Rename(tmp, path)
+	verifhook.Crash("jsonfile:after-close")
+	if err = os.Rename(tmp, path); err != nil {
+		return err
+	}
+	verifhook.Crash("jsonfile:after-rename")
+	return nil
 }
